@@ -312,6 +312,15 @@ func (m c07) run(c *Ctx, s *SchemaSpec, schema *jsonapi.Schema, spec *URLSpec) {
 			if (p == nil) == (perr == nil) {
 				c.Violate("params-xor-error/NewParams", "%s", desc())
 			}
+			if perr == nil && s.Type(resType) != nil {
+				// the same clauses on the Params built directly for a given resource type
+				fake := &jsonapi.URL{ResType: resType, Params: p}
+				fspec := *spec
+				fspec.Frags = []string{resType, "some-id"} // not a collection: sorting rules are not judged here
+				if cl, msg := checkParsedURL(s, &fspec, fake); cl != "" {
+					c.Violate(cl+"/NewParams", "NewParams(resType=%q): %s; %s", resType, msg, desc())
+				}
+			}
 		}); pi != nil {
 			c.Violate("panic@"+pi.Frame+"/"+panicClass(pi.Val)+"/NewSimpleURL+NewParams", "%s; resType %q; %s", pi, resType, desc())
 			return
